@@ -935,14 +935,25 @@ def heap_cell(e, env, P):
         if isinstance(b, int) and not isinstance(b, bool) and env.get("#bytemem") and b >= HEAP_BASE:
             return ("m", b)
         return None
-    if is_e(e, "idx") and env.get("#bytemem"):
+    if is_e(e, "idx"):
         try:
             b = evalx(e[1], env, P)
-            i = evalx(e[2], env, P)
         except EvalError:
             return None
-        if isinstance(b, int) and isinstance(i, int) and b >= HEAP_BASE:
-            return ("m", b + i)
+        if isinstance(b, PRef) and b.obj is None and isinstance(b.field, str) and b.field.startswith("#arr"):
+            # an array of the caller handed down as a pointer parameter ("call" mechanism of the evaluator)
+            try:
+                i = evalx(e[2], env, P)
+            except EvalError:
+                return None
+            return (b.field, i) if isinstance(i, int) else None
+        if env.get("#bytemem") and isinstance(b, int) and not isinstance(b, bool) and b >= HEAP_BASE:
+            try:
+                i = evalx(e[2], env, P)
+            except EvalError:
+                return None
+            if isinstance(i, int):
+                return ("m", b + i)
     return None
 
 
@@ -1099,10 +1110,12 @@ def evalx(e, env, P=None):
         if env[e[1]] is None:
             raise EvalError("variable %s has no known value" % e[1])
         return env[e[1]]
-    if t == "fld" or t == "deref" or (t == "idx" and env.get("#bytemem")):
+    if t == "fld" or t == "deref" or (t == "idx" and (env.get("#bytemem") or env.get("#arrays"))):
         hc = heap_cell(e, env, P)
         if hc is not None:
             if hc not in env:
+                if isinstance(hc, tuple) and isinstance(hc[0], str) and hc[0].startswith("#arr"):
+                    raise EvalError("read of array element %s[%s] that was never written" % hc)
                 if isinstance(hc, tuple) and hc[0] == "m":
                     raise EvalError("read of memory byte %d that holds no data (outside every buffer's data, or never written)" % hc[1])
                 if isinstance(hc, tuple) and len(hc) == 3 and env.get(("@", hc[1], "#zero")):
